@@ -10,6 +10,7 @@ import (
 	"github.com/freeconf/yang/node"
 	"github.com/freeconf/yang/nodeutil"
 	"github.com/freeconf/yang/parser"
+	"github.com/freeconf/yang/val"
 
 	"verif/core"
 	"verif/dp"
@@ -211,11 +212,76 @@ func (p c16) whenStacked(c *core.Ctx) {
 	}
 }
 
+// whenOperandGuarded: the operand of a condition is itself under a condition; and a leaf under a condition read directly
+// (Find + Get, GetValue) instead of as part of its container.
+func (p c16) whenOperandGuarded(c *core.Ctx) {
+	body := "leaf w { type int32; } leaf z { when \"w=1\"; type int32; } leaf y { when \"z>10\"; type string; } container k { leaf o { type int32; } leaf g { when \"o>5\"; type string; } } leaf q { type string; }"
+	m, err := parser.LoadModuleFromString(nil, "module m { namespace \"urn:m\"; prefix m; revision 2020-01-01; "+body+" }")
+	if err != nil {
+		c.Violate("when/load-error/operand-guarded", "load: %v\n%s", err, body)
+		return
+	}
+	for _, w := range []int{1, 2} {
+		for _, z := range []int{20, 5} {
+			for _, o := range []int{9, 1} {
+				c.Eval()
+				c.Shape("when-operand-guarded/%v/%v/%v", w == 1, z > 10, o > 5)
+				doc := fmt.Sprintf("{\"w\":%d,\"z\":%d,\"y\":\"yv\",\"k\":{\"o\":%d,\"g\":\"gv\"},\"q\":\"keep\"}", w, z, o)
+				n, _ := nodeutil.ReadJSON(doc)
+				b := node.NewBrowser(m, n)
+				var got string
+				var rerr error
+				if c.Guard("operand guarded", func() { got, rerr = nodeutil.WriteJSON(b.Root()) }) {
+					continue
+				}
+				wantZ, wantY, wantG := w == 1, w == 1 && z > 10, o > 5
+				wit := fmt.Sprintf("schema: %s\ndata: %s\noutput: %s", body, doc, got)
+				if rerr != nil {
+					c.Violate("when/error/operand-guarded", "read failed: %v\n%s", rerr, wit)
+					continue
+				}
+				var top map[string]interface{}
+				if e := jsonUnmarshal(got, &top); e != nil {
+					c.Violate("when/error/operand-guarded", "output is not JSON\n%s", wit)
+					continue
+				}
+				_, hasZ := top["z"]
+				_, hasY := top["y"]
+				kk, _ := top["k"].(map[string]interface{})
+				_, hasG := kk["g"]
+				if hasZ != wantZ || hasY != wantY || hasG != wantG || top["q"] != "keep" {
+					c.Violate("when/operand-guarded/read", "z visible=%v (want %v), y visible=%v (want %v: its operand z must be visible and > 10), k/g visible=%v (want %v)\n%s", hasZ, wantZ, hasY, wantY, hasG, wantG, wit)
+				}
+				// the same leaves asked for one by one
+				for _, probe := range []struct {
+					path string
+					want bool
+				}{{"z", wantZ}, {"y", wantY}, {"k/g", wantG}, {"q", true}} {
+					c.Eval()
+					var v val.Value
+					var gerr error
+					if c.Guard("GetValue "+probe.path, func() { v, gerr = b.Root().GetValue(probe.path) }) {
+						continue
+					}
+					if gerr != nil {
+						c.Violate("when/operand-guarded/direct-read-error", "GetValue(%q) failed: %v\n%s", probe.path, gerr, wit)
+					} else if (v != nil) != probe.want {
+						c.Violate("when/operand-guarded/direct-read", "GetValue(%q) = %v, the leaf is visible=%v in a read of its container\n%s", probe.path, v, probe.want, wit)
+					}
+				}
+			}
+		}
+	}
+}
+
 func (p c16) Run(c *core.Ctx, idx int) {
 	ts := c16types()
 	t := ts[idx%len(ts)]
 	if idx%97 == 1 {
 		p.whenStacked(c)
+	}
+	if idx%97 == 2 {
+		p.whenOperandGuarded(c)
 	}
 	if idx%97 == 0 {
 		p.usesWhenOnContainer(c)
